@@ -272,6 +272,7 @@ class Executor:
         self._keep_locals = False
         self._ax_done = {}
         self._ipdom = {}
+        self.budget_hit = False
         self.fork_sites = {}
         self._live = {}
         self._hint = None
@@ -282,6 +283,7 @@ class Executor:
         self.defs = {}      # key -> [Fn]
         self.by_last = {}   # last path segment -> [Fn]
         self.closures = {}  # '{closure@pos}' -> Fn ; '{async block@pos}' -> Fn
+        self.closures_all = {}
         self.coro_of = {}   # constructor fn name -> Fn (the ::{closure#0} body of an async fn)
         for fn in self.order:
             if fn.kind != 'fn':
@@ -295,6 +297,7 @@ class Executor:
                     key = m.group(0)
                     if re.fullmatch(r"(&\s*('[a-z_]+\s+)?(mut\s+)?)?" + re.escape(key), t0.strip()):
                         self.closures.setdefault(key, fn)
+                        self.closures_all.setdefault(key, []).append(fn)
                 m = re.search(r'\{async (block|closure body)@[^}]*\}', t0)
                 if m and t0.startswith('Pin<&mut '):
                     self.closures.setdefault(m.group(0), fn)
@@ -802,6 +805,9 @@ class Executor:
         return cell, tpath, ty
 
     def variant_idx(self, ty, var):
+        m = re.fullmatch(r'_(\d+)', var)
+        if m:
+            return int(m.group(1))          # variants of the enum generated by select! (`__PrivResult::_N`)
         h = type_head(ty) if ty else None
         if h:
             i = self.src.variant_index(h, var)
@@ -1076,7 +1082,7 @@ class Executor:
                     if flo >= lo and fhi <= hi:
                         return Sc(t, to_ty)
                 return Sc(self.wrap(t, to_ty), to_ty)
-        if kind.startswith(('PointerCoercion', 'PtrToPtr', 'Transmute', 'PointerExposeProvenance',
+        if kind.startswith(('PointerCoercion', 'PtrToPtr', 'Transmute', 'PointerExposeProvenance', 'Subtype',
                             'PointerWithExposedProvenance', 'FnPtrToPtr')):
             return v
         raise Inconclusive('cast %s -> %s (%s)' % (v, to_ty, kind))
@@ -1145,6 +1151,8 @@ class Executor:
         if head.startswith('{coroutine@') or head.startswith('{closure@') or head.startswith('{async'):
             ty = re.sub(r' \(#\d+\)', '', head)
             t = Tree(dict(enumerate(vals)), None, ty, meta=frame.fn.name)
+            if head.startswith('{closure@') and rv.c:
+                t.meta = (frame.fn.name, tuple(rv.c))
             if head.startswith('{coroutine@'):
                 t.f['discr'] = Sc(z3.IntVal(0), 'u32')
             return t
@@ -1196,6 +1204,9 @@ class Executor:
             self.stats['paths'] += 1
             out.append(st)
             if self.stats['paths'] > self.cfg['max_paths']:
+                if self.cfg.get('on_budget') == 'stop':
+                    self.budget_hit = True
+                    break
                 raise Inconclusive('path budget exhausted (%d)' % self.cfg['max_paths'])
         return out
 
@@ -1747,8 +1758,10 @@ class Executor:
             c, apply = feas[0]
             if c is not None:
                 st.pc.append(c)
-            apply(st)
-            return None
+            res = self._apply_alt(st, apply)
+            if len(res) == 1 and res[0] is st:
+                return None
+            return res
         outs = []
         if st.frames:
             f0 = st.frames[-1]
@@ -1758,9 +1771,18 @@ class Executor:
             s2 = st.clone() if i < len(feas) - 1 else st
             if c is not None:
                 s2.pc.append(c)
-            apply(s2)
-            outs.append(s2)
+            outs.extend(self._apply_alt(s2, apply))
         return outs
+
+    def _apply_alt(self, s, apply):
+        """apply one alternative to state s; a Fork raised while doing so (a model continuation that needs
+        to branch again) is resolved on s itself"""
+        try:
+            apply(s)
+            return [s]
+        except Fork as fk:
+            r = self.branch(s, [(c, (lambda k: (lambda x: k(x)))(k)) for c, k in fk.alts])
+            return [s] if r is None else r
 
     def exec_term(self, st, fr, t):
         k = t.kind
@@ -1998,6 +2020,11 @@ class Executor:
         hook = self.cfg.get('env_assume')
         if hook is not None:
             hook(self, st, key, v, dty)
+        stop = self.cfg.get('stop_when')
+        if stop is not None and stop(st, key):
+            st.status = 'bound'
+            st.info = 'exploration bound reached at ' + key
+            return None
         ret(st, v)
         return None
 
@@ -2030,14 +2057,32 @@ class Executor:
     def closure_fn_for(self, st, cv):
         """(Fn, self value to pass) for a closure value cv (by value or by reference)"""
         tv = cv
-        if isinstance(cv, Ptr):
-            tv = self.load(st, cv.cell, [(k, None) for k in cv.path])
+        n = 0
+        while isinstance(tv, Ptr) and n < 4:
+            tv = self.load(st, tv.cell, [(k, None) for k in tv.path])
+            n += 1
         if isinstance(tv, Tree) and tv.ty:
             m = re.search(r'\{closure@[^}]*\}', tv.ty)
             if m:
-                fn = self.closures.get(m.group(0))
-                if fn is not None:
-                    return fn, tv
+                cands = self.closures_all.get(m.group(0)) or []
+                if len(cands) > 1:
+                    # macro-generated closures share one source position: use the creating function and
+                    # the names of the captured variables
+                    creator = tv.meta[0] if isinstance(tv.meta, tuple) else tv.meta
+                    names = tv.meta[1] if isinstance(tv.meta, tuple) else None
+                    if creator:
+                        c2 = [f for f in cands if f.name.startswith(creator + '::{closure#')] or cands
+                        cands = c2
+                    if len(cands) > 1 and names is not None:
+                        for f in cands:
+                            parse_body(f)
+                        c3 = [f for f in cands if tuple(f.captures.get(i) for i in range(len(names))) == tuple(names)]
+                        if c3:
+                            cands = c3
+                    if len(set(f.text_hash for f in cands)) > 1:
+                        raise Inconclusive('ambiguous closure %s (%d bodies)' % (m.group(0)[:60], len(cands)))
+                if cands:
+                    return cands[0], tv
         return None, None
 
     def invoke_closure(self, st, cv, argvals, on_return):
@@ -2083,6 +2128,12 @@ class Executor:
                 fr.bb, fr.idx = target, 0
                 parse_body(fn)
                 selfv = args[0] if fn.args[0][1].strip().startswith('&') == isinstance(args[0], Ptr) else tv
+                if isinstance(selfv, Ptr):
+                    # &mut &mut dyn FnMut: strip the extra reference levels down to the closure's own cell
+                    inner = self.load(st, selfv.cell, [(k, None) for k in selfv.path])
+                    while isinstance(inner, Ptr):
+                        selfv = inner
+                        inner = self.load(st, selfv.cell, [(k, None) for k in selfv.path])
                 if fn.args[0][1].strip().startswith('&') and not isinstance(args[0], Ptr):
                     st.nfid += 1
                     cell = (st.nfid, 'clo')
